@@ -356,7 +356,7 @@ theorem consistent_step (s : Store) (h : Consistent s) (e : Ev) : Consistent (st
       split
       · exact consistent_updateParent s h _ _ _
       · exact h
-  | parentRevokes ca p uri reply now =>
+  | parentRevokes ca p uri sent reply now =>
     cases reply with
     | ok u => cases u; exact consistent_updateParent s h _ _ _
     | error e => exact consistent_updateParent s h _ _ _
@@ -398,9 +398,9 @@ def parentProj (e : Ev) (ca p : String) (o : Option ParentStatus) : Option Paren
       if ca' = ca ∧ p' = p then some ((o.getD {}).setEntitlements uri ent now) else o
   | .parentList ca' p' uri ex (.error err) now =>
       if ca' = ca ∧ p' = p ∧ ex = true then some ((o.getD {}).setFailure uri err now) else o
-  | .parentRevokes ca' p' uri (.ok ()) now =>
+  | .parentRevokes ca' p' uri _ (.ok ()) now =>
       if ca' = ca ∧ p' = p then some ((o.getD {}).setLastUpdated uri now) else o
-  | .parentRevokes ca' p' uri (.error err) now =>
+  | .parentRevokes ca' p' uri _ (.error err) now =>
       if ca' = ca ∧ p' = p then some ((o.getD {}).setFailure uri err now) else o
   | .parentCerts ca' p' uri (.ok ()) now =>
       if ca' = ca ∧ p' = p then some ((o.getD {}).setLastUpdated uri now) else o
@@ -507,7 +507,7 @@ theorem parent?_step (s : Store) (h : Consistent s) (e : Ev) (ca p : String) :
       cases ex with
       | true => simp only [if_true, and_true]; exact parent?_updateParent s _ _ _ _ _
       | false => simp
-  | parentRevokes ca' p' uri reply now =>
+  | parentRevokes ca' p' uri sent reply now =>
     cases reply with
     | ok u => cases u; exact parent?_updateParent s _ _ _ _ _
     | error e => exact parent?_updateParent s _ _ _ _ _
@@ -611,7 +611,7 @@ theorem child?_step (s : Store) (h : Consistent s) (e : Ev) (ca c : String) :
       split
       · exact child?_updateParent s _ _ _ _ _
       · rfl
-  | parentRevokes ca' p' uri reply now =>
+  | parentRevokes ca' p' uri sent reply now =>
     cases reply with
     | ok u => cases u; exact child?_updateParent s _ _ _ _ _
     | error e => exact child?_updateParent s _ _ _ _ _
@@ -708,7 +708,7 @@ theorem repo_step (s : Store) (h : Consistent s) (e : Ev) (ca : String) :
       split
       · exact repo_updateParent s _ _ _ _
       · rfl
-  | parentRevokes ca' p' uri reply now =>
+  | parentRevokes ca' p' uri sent reply now =>
     cases reply with
     | ok u => cases u; exact repo_updateParent s _ _ _ _
     | error e => exact repo_updateParent s _ _ _ _
@@ -759,7 +759,7 @@ theorem parentProj_of_not_touches (e : Ev) (ca p : String) (o : Option ParentSta
     | error err =>
       have : ¬ (ca' = ca ∧ p' = p ∧ ex = true) := fun ⟨a, b, _⟩ => this ⟨a, b⟩
       simp [parentProj, this]
-  | parentRevokes ca' p' uri reply now =>
+  | parentRevokes ca' p' uri sent reply now =>
     simp only [Ev.touchesParent, Bool.and_eq_false_iff, decide_eq_false_iff_not] at h
     have : ¬ (ca' = ca ∧ p' = p) := fun ⟨a, b⟩ => by rcases h with h | h <;> contradiction
     cases reply with
@@ -809,7 +809,7 @@ theorem parentProj_attempt (e : Ev) (ca p : String) (x : Exchange) (o : Option P
         refine ⟨(o.getD {}).setFailure uri err now, by simp [parentProj], rfl, ?_, ?_⟩
         · intro h; cases h
         · intro _; exact ⟨rfl, rfl, rfl⟩
-  | parentRevokes ca' p' uri reply now =>
+  | parentRevokes ca' p' uri sent reply now =>
     simp only [Ev.parentAttempt?, Option.some.injEq, Prod.mk.injEq] at h
     obtain ⟨rfl, rfl, rfl⟩ := h
     cases reply with
@@ -858,7 +858,7 @@ theorem parentProj_keeps_lastSuccess (e : Ev) (ca p : String) (o : Option Parent
       split
       · cases o <;> rfl
       · rfl
-  | parentRevokes ca' p' uri reply now =>
+  | parentRevokes ca' p' uri sent reply now =>
     cases reply with
     | ok u =>
       cases u
@@ -915,7 +915,7 @@ theorem parentProj_keeps_classes (e : Ev) (ca p : String) (o : Option ParentStat
       split
       · exact ⟨rfl, rfl⟩
       · exact ⟨rfl, rfl⟩
-  | parentRevokes ca' p' uri reply now =>
+  | parentRevokes ca' p' uri sent reply now =>
     cases reply with
     | ok u =>
       cases u
@@ -974,7 +974,7 @@ theorem repoProj_of_not_touches (e : Ev) (ca : String) (r : RepoStatus)
     simp only [Ev.touchesRepo, Ev.removesCa, decide_eq_false_iff_not] at h
     simp [repoProj, h]
   | parentList ca' p' uri ex reply now => cases reply <;> rfl
-  | parentRevokes ca' p' uri reply now => cases reply <;> rfl
+  | parentRevokes ca' p' uri sent reply now => cases reply <;> rfl
   | parentCerts ca' p' uri reply now => cases reply <;> rfl
   | childRequest ca' c agent outcome now => cases outcome <;> rfl
   | childSuspended ca' c now => rfl
@@ -1016,7 +1016,7 @@ theorem repoProj_attempt (e : Ev) (ca : String) (x : Exchange) (r : RepoStatus)
       · intro h; cases h
       · intro _; simp [repoProj, RepoStatus.setFailure]
   | parentList ca' p' uri ex reply now => simp [Ev.repoAttempt?] at h
-  | parentRevokes ca' p' uri reply now => simp [Ev.repoAttempt?] at h
+  | parentRevokes ca' p' uri sent reply now => simp [Ev.repoAttempt?] at h
   | parentCerts ca' p' uri reply now => simp [Ev.repoAttempt?] at h
   | childRequest ca' c agent outcome now => simp [Ev.repoAttempt?] at h
   | childSuspended ca' c now => simp [Ev.repoAttempt?] at h
@@ -1059,7 +1059,7 @@ theorem repoProj_keeps_lastSuccess (e : Ev) (ca : String) (r : RepoStatus)
     simp only [Ev.removesCa, decide_eq_false_iff_not] at h2
     simp [repoProj, h2]
   | parentList ca' p' uri ex reply now => cases reply <;> exact ⟨rfl, rfl⟩
-  | parentRevokes ca' p' uri reply now => cases reply <;> exact ⟨rfl, rfl⟩
+  | parentRevokes ca' p' uri sent reply now => cases reply <;> exact ⟨rfl, rfl⟩
   | parentCerts ca' p' uri reply now => cases reply <;> exact ⟨rfl, rfl⟩
   | childRequest ca' c agent outcome now => cases outcome <;> exact ⟨rfl, rfl⟩
   | childSuspended ca' c now => exact ⟨rfl, rfl⟩
@@ -1093,7 +1093,7 @@ theorem childProj_of_not_touches (e : Ev) (ca c : String) (o : Option ChildStatu
   | repoList ca' uri reply now => cases reply <;> rfl
   | repoDelta ca' uri d reply now => cases reply <;> rfl
   | parentList ca' p' uri ex reply now => cases reply <;> rfl
-  | parentRevokes ca' p' uri reply now => cases reply <;> rfl
+  | parentRevokes ca' p' uri sent reply now => cases reply <;> rfl
   | parentCerts ca' p' uri reply now => cases reply <;> rfl
   | parentRemove ca' p' => rfl
   | restart => rfl
@@ -1118,7 +1118,7 @@ theorem childProj_attempt (e : Ev) (ca c : String) (x : ChildExchange) (o : Opti
   | repoList ca' uri reply now => simp [Ev.childAttempt?] at h
   | repoDelta ca' uri d reply now => simp [Ev.childAttempt?] at h
   | parentList ca' p' uri ex reply now => simp [Ev.childAttempt?] at h
-  | parentRevokes ca' p' uri reply now => simp [Ev.childAttempt?] at h
+  | parentRevokes ca' p' uri sent reply now => simp [Ev.childAttempt?] at h
   | parentCerts ca' p' uri reply now => simp [Ev.childAttempt?] at h
   | childSuspended ca' c' now => simp [Ev.childAttempt?] at h
   | parentRemove ca' p' => simp [Ev.childAttempt?] at h
@@ -1154,7 +1154,7 @@ theorem childProj_keeps_lastExchange (e : Ev) (ca c : String) (o : Option ChildS
   | repoList ca' uri reply now => cases reply <;> exact ⟨rfl, rfl⟩
   | repoDelta ca' uri d reply now => cases reply <;> exact ⟨rfl, rfl⟩
   | parentList ca' p' uri ex reply now => cases reply <;> exact ⟨rfl, rfl⟩
-  | parentRevokes ca' p' uri reply now => cases reply <;> exact ⟨rfl, rfl⟩
+  | parentRevokes ca' p' uri sent reply now => cases reply <;> exact ⟨rfl, rfl⟩
   | parentCerts ca' p' uri reply now => cases reply <;> exact ⟨rfl, rfl⟩
   | parentRemove ca' p' => exact ⟨rfl, rfl⟩
   | restart => exact ⟨rfl, rfl⟩
@@ -1191,7 +1191,7 @@ theorem childProj_keeps_lastSuccess (e : Ev) (ca c : String) (o : Option ChildSt
   | repoList ca' uri reply now => cases reply <;> rfl
   | repoDelta ca' uri d reply now => cases reply <;> rfl
   | parentList ca' p' uri ex reply now => cases reply <;> rfl
-  | parentRevokes ca' p' uri reply now => cases reply <;> rfl
+  | parentRevokes ca' p' uri sent reply now => cases reply <;> rfl
   | parentCerts ca' p' uri reply now => cases reply <;> rfl
   | parentRemove ca' p' => rfl
   | restart => rfl
